@@ -166,6 +166,7 @@ structure St where
   path : Option P
   temp : Bool
   fext : List Nat
+  opened : Bool        -- `self.opened`
 
 /-- the configuration in force: construction parameters with the current `temp` / `fext` -/
 def cur (c : Cfg) (s : St) : Cfg := { c with temp := s.temp, fext := s.fext }
@@ -237,9 +238,9 @@ def clearPath (c : Cfg) (fs : FS) : Option P → Except Exn FS
 def close (c : Cfg) (s : St) (clear : Bool) : St × Except Exn Unit :=
   if clear then
     match clearPath (cur c s) s.fs s.path with
-    | .ok fs => ({ s with fs := fs }, .ok ())
-    | .error e => (s, .error e)
-  else (s, .ok ())
+    | .ok fs => ({ s with fs := fs, opened := false }, .ok ())
+    | .error e => ({ s with opened := false }, .error e)
+  else ({ s with opened := false }, .ok ())
 
 /-- the settings block of `reopen`: `if temp is not None: self.temp = temp` … -/
 def takeOver (s : St) (temp : Option Bool) (fext : Option (List Nat)) : St :=
@@ -252,15 +253,15 @@ def reopenTail (c : Cfg) (s : St) (reuse clean : Bool) : St × Except Exn Unit :
     | none => false
   if !keep then
     match remake (cur c s) clean s.fs s.tmpN with
-    | (fs, n, .ok p) => ({ s with fs := fs, tmpN := n, path := some p }, .ok ())
+    | (fs, n, .ok p) => ({ s with fs := fs, tmpN := n, path := some p, opened := true }, .ok ())
     | (fs, n, .error e) => ({ s with fs := fs, tmpN := n }, .error e)
   else if c.filed then
     match s.path with
     | some p => (match ocfn s.fs p with
-      | .ok fs => ({ s with fs := fs }, .ok ())
+      | .ok fs => ({ s with fs := fs, opened := true }, .ok ())
       | .error e => (s, .error e))
-    | none => (s, .ok ())
-  else (s, .ok ())
+    | none => ({ s with opened := true }, .ok ())
+  else ({ s with opened := true }, .ok ())
 
 /-- `reopen(temp, fext, clear, reuse, clean)` (the constructor is `reopen` on `path = None`):
 first `close(clear)` under the OLD settings, then the new settings are taken over, then `remake` unless the
@@ -274,13 +275,21 @@ def reopen (c : Cfg) (s : St) (clear reuse clean : Bool) (temp : Option Bool) (f
 inductive Step
   | reopen (clear reuse clean : Bool) (temp : Option Bool) (fext : Option (List Nat))
   | close (clear : Bool)
+  | exit (clear : Bool)     -- leaving `with openFiler(..., clear=clear)`: `filer.close(clear=filer.temp or clear)`
+  | doer                    -- a `FilerDoer` run by a Doist: `enter` reopens when not opened, `exit` closes with `clear=filer.temp`
 
 def step (c : Cfg) (s : St) : Step → St × Except Exn Unit
   | .reopen a b cl t f => reopen c s a b cl t f
   | .close a => close c s a
+  | .exit a => close c s (s.temp || a)
+  | .doer =>
+    if s.opened then close c s s.temp
+    else match reopen c s false false false none none with
+      | (s1, .error e) => (s1, .error e)
+      | (s1, .ok _) => close c s1 s1.temp
 
 /-- a fresh object before its constructor's `reopen` -/
-def fresh (c : Cfg) (fs : FS) : St := ⟨fs, 0, none, c.temp, c.fext⟩
+def fresh (c : Cfg) (fs : FS) : St := ⟨fs, 0, none, c.temp, c.fext, false⟩
 
 /-- the state after a whole history of calls (a caller may catch an exception and go on) -/
 def runAll (c : Cfg) (s : St) : List Step → St
